@@ -313,12 +313,8 @@ func (vc *VC) heapMap(root types.Type, path []string, leaf types.Type) *SVar {
 }
 
 func (vc *VC) memMap(elem types.Type) *SVar {
-	if isAggregate(elem) {
-		// arrays of structs: row sort is the struct datatype
-		return vc.svar("Mem$"+typeName(elem), "(Array Int (Array Int "+vc.srt.sortOf(elem)+"))", nil)
-	}
-	s := vc.srt.sortOf(elem)
-	return vc.svar("Mem$"+sortTag(s), "(Array Int (Array Int "+s+"))", nil)
+	// one memory per Go element type (memories of different element types never alias)
+	return vc.svar(memName(vc.srt, elem), "(Array Int (Array Int "+vc.srt.sortOf(elem)+"))", nil)
 }
 
 func sortTag(s string) string {
@@ -705,6 +701,11 @@ func (vc *VC) zeroObject(n *Node, lv *LVal) {
 		return
 	}
 	if lv.kind == lvOpaque {
+		return
+	}
+	if isLockType(t) {
+		// a freshly allocated mutex is unlocked
+		n.assume(sEq(vc.lockState(n.env, lv), "0"))
 		return
 	}
 	n.assume(sEq(vc.load(n.env, lv), vc.srt.zeroOf(t)))
